@@ -206,10 +206,12 @@ def crash_detail(rc, stderr):
         return 'ubsan:' + SLUG.sub('_', re.sub(r'0x[0-9a-f]+|\d+', 'N', m.group(1)))[:60]
     if 'ThreadSanitizer: data race' in stderr:
         fn = 'unknown'
-        for fm in re.finditer(r'#\d+ (.*?) [^ ]*:\d+', stderr):
+        for fm in re.finditer(r'^\s+#\d+ (?:0x[0-9a-f]+ in )?(.+)$', stderr, re.M):
             f = fm.group(1)
-            if 'BaseGraph::' in f and 'gs::' not in f:
-                fn = re.sub(r'<.*', '', re.sub(r'\(.*', '', f)).strip()
+            m2 = re.search(r'BaseGraph::(?:algorithms::|io::)?([A-Za-z_0-9]+(?:<[^>]*>)?::)?([A-Za-z_0-9=~]+)', f)
+            if m2 and 'gs::' not in f.split('BaseGraph::')[0]:
+                fn = ((m2.group(1) or '') + m2.group(2))
+                fn = re.sub(r'<[^>]*>', '', fn)
                 break
         return 'tsan_data_race:' + SLUG.sub('_', fn)[:80]
     if 'ThreadSanitizer' in stderr:
@@ -528,6 +530,13 @@ def main(argv):
             plan = gen_plan(b.cfg, prop, tier, seed, c['idx'])
             o = run_plan(b.cfg, plan, trace=True)
             p, cls, d = outcome_class(prop, plan, o, b.cfg)
+            tries = 0
+            while cls == 'ok' and b.cfg == 'ts' and tries < 4:
+                # ThreadSanitizer keeps a bounded, pseudo-randomly evicted access history per memory word: whether a given race
+                # is *reported* can depend on heap layout. The interleaving itself is exactly the recorded one; retry the report.
+                o = run_plan(b.cfg, plan, trace=True)
+                p, cls, d = outcome_class(prop, plan, o, b.cfg)
+                tries += 1
             if cls == 'ok':
                 # the abnormal end did not reproduce from its plan: machinery fault
                 log('check: abnormal end of run %d (%s, rc=%s) did not reproduce from its plan' % (c['idx'], b.cfg, c['rc']))
@@ -621,8 +630,8 @@ def main(argv):
                                                                                       json.dumps(small['ops'])[:600]))
         reports.append(dict(cls=cls2, replay=path))
         exit_code = 1
-    if machinery:
-        exit_code = 2
+    if machinery and exit_code == 0:
+        exit_code = 2  # nothing reproducible was found, but something abnormal happened: no verdict
 
     # ---- evidence
     wall = time.time() - t_start
